@@ -178,9 +178,14 @@ def apply_edit(cat, pool, op, strip=False):
     elif op["op"] == "edit_annot":
         if op["what"] == "description":
             rec.description = op["value"]
-        elif op["what"] == "qualifier" and rec.features:
-            f = rec.features[op["feature"] % len(rec.features)]
-            f.qualifiers.setdefault("label", []).append(op["value"])
+        elif op["what"] == "qualifier":
+            # only features the catalogue defined (tagged with a uid note) are edited, so that a
+            # feature smuggled into the record by the code under test cannot derail the client
+            own = [f for f in rec.features if any(str(n).startswith("uid:") for n in f.qualifiers.get("note", []))]
+            if own:
+                f = own[op["feature"] % len(own)]
+                labels = f.qualifiers.get("label", [])
+                f.qualifiers["label"] = (list(labels) if isinstance(labels, (list, tuple)) else [labels]) + [op["value"]]
         elif op["what"] == "annotation":
             rec.annotations["keywords"] = [op["value"]]
     else:
@@ -570,9 +575,18 @@ def _run_child(case):
                 except Exception as exc:
                     ev["outcome"] = {"exc": type(exc).__name__}
         elif k in ("edit_seq", "repair", "edit_annot", "edit_citation"):
-            apply_edit(cat, pool, op)
-            baseline[op["rec"]] = snapshot(pool[op["rec"]])
-            ev["outcome"] = "ok"
+            # a caller-level edit changes exactly what it says: the baseline is updated by
+            # applying the same edit to a copy of the baseline record, so damage done earlier
+            # by the code under test is not absorbed into the baseline
+            before = snapshot(pool[op["rec"]])
+            try:
+                apply_edit(cat, pool, op)
+                ev["outcome"] = "ok"
+            except Exception as exc:
+                ev["outcome"] = {"exc": type(exc).__name__}
+            after = snapshot(pool[op["rec"]])
+            if before == baseline[op["rec"]]:
+                baseline[op["rec"]] = after
         elif k == "rewrap":
             wd = env["wrap_def"].get(op["h"])
             if wd is not None:
